@@ -7,7 +7,7 @@ import ast
 
 from .. import AnalysisError, flow
 from ..fold import is_unknown, RegexVal
-from ..srcmodel import walk_local, norm, dotted, guards, enclosing_stmt, parent
+from ..srcmodel import walk_local, norm, dotted, guards, enclosing_stmt, parent, facts_at
 from . import common
 
 META = {
@@ -45,9 +45,182 @@ def check(ctx):
     ctx.attempt(_at_least_one_tract)
     ctx.attempt(_kwargs)
     ctx.attempt(_str_lists)
+    ctx.attempt(_unbound_locals)
+    ctx.attempt(_staged_optionals)
     n = common.discarded_results(ctx, _parser_funcs(ctx))
     if n == 0:
         ctx.ok('DISCARD', 'no validated / converted value is computed and dropped (bare-statement calls to pure functions)')
+
+
+def _loop_witness(fi, use, cfg_node):
+    """The read of a loop-assigned variable after its loop is safe when it is
+    guarded by the truthiness of a container attribute that is only ever
+    filled from inside that loop's body (so a non-empty container proves the
+    body - and the assignment - ran).  Returns the witness text or None."""
+    name = use.id
+    defs = [n for n in ast.walk(fi.node) if isinstance(n, ast.Name) and isinstance(n.ctx, ast.Store) and n.id == name]
+    loops = set()
+    for d in defs:
+        p = d
+        while p is not None and not isinstance(p, (ast.For, ast.While)):
+            p = getattr(p, '_parent', None)
+            if p is fi.node:
+                p = None
+        if p is None:
+            return None
+        loops.add(p)
+    if len(loops) != 1:
+        return None
+    loop = loops.pop()
+    if any(use is x for x in ast.walk(loop)):
+        return None
+    body_ids = {id(x) for st in loop.body for x in ast.walk(st)}
+    # helpers defined in the function and called only inside the loop body
+    inner = {}
+    for n in ast.walk(fi.node):
+        if isinstance(n, ast.FunctionDef) and n is not fi.node:
+            calls = [c for c in ast.walk(fi.node) if isinstance(c, ast.Call) and isinstance(c.func, ast.Name)
+                     and c.func.id == n.name]
+            inner[n.name] = (n, bool(calls) and all(id(c) in body_ids for c in calls))
+    for _e, txt, pol in facts_at(use):
+        if not pol or not txt.startswith('self.') or not txt[5:].isidentifier():
+            continue
+        ok = True
+        found = False
+        for n in ast.walk(fi.node):
+            hit = None
+            if isinstance(n, ast.Call) and isinstance(n.func, ast.Attribute) and norm(n.func.value) == txt \
+                    and n.func.attr in ('append', 'extend', 'insert', 'add', 'update'):
+                hit = n
+            elif isinstance(n, ast.Attribute) and isinstance(n.ctx, ast.Store) and norm(n) == txt:
+                # a rebinding to an empty container is harmless; anything else is a fill
+                par = n._parent
+                if isinstance(par, ast.Assign) and isinstance(par.value, (ast.List, ast.Dict, ast.Tuple)) \
+                        and not getattr(par.value, 'elts', getattr(par.value, 'keys', [])):
+                    continue
+                hit = n
+            if hit is None:
+                continue
+            found = True
+            if id(hit) in body_ids:
+                continue
+            holder = hit
+            while holder is not None and not isinstance(holder, ast.FunctionDef):
+                holder = holder._parent
+            if holder is not None and holder is not fi.node and inner.get(holder.name, (None, False))[1]:
+                continue
+            ok = False
+        if ok and found:
+            return txt
+    return None
+
+
+def _unbound_locals(ctx):
+    """definite assignment: no read of a local that a path reaches unassigned."""
+    n_f = n_u = 0
+    for fi in _parser_funcs(ctx):
+        try:
+            found = flow.possibly_undefined(fi.node)
+        except AnalysisError as e:
+            ctx.undecided('DEFUSE', f"{fi.qualname}: definite assignment", str(e))
+            continue
+        n_f += 1
+        seen = set()
+        for use, node in found:
+            if use.id in seen:
+                continue
+            seen.add(use.id)
+            n_u += 1
+            w = _loop_witness(fi, use, node)
+            construct = f"{fi.qualname}: `{use.id}` is assigned on every path to its use"
+            if w:
+                ctx.ok('DEFUSE', construct, f"read only under `if {w}`, a container filled only inside the loop that "
+                                            f"assigns `{use.id}` (non-empty => the loop body ran)")
+                ctx.assume(f"{w} is empty when {fi.qualname} starts scanning (set to [] by __init__, second pass only when empty)")
+                continue
+            ctx.violation('DEFUSE', construct,
+                          f"`{use.id}` (line {use.lineno}) is read although a path from the start of {fi.qualname} reaches "
+                          f"it without any assignment (its assignments sit in a loop / branch that may not run): "
+                          f"UnboundLocalError on that path",
+                          key=f"DEFUSE|{fi.qualname}|unbound|{use.id}", where=common.loc(fi, use))
+    ctx.floor('functions analysed for definite assignment', n_f, 100)
+    if n_u == 0:
+        ctx.ok('DEFUSE', 'every local read is definitely assigned', f"{n_f} functions")
+
+
+def _staged_optionals(ctx):
+    """Components staged by ChunkParser._stage_new_tract may still be None
+    (working_twprge / working_sec start as None): PLSSParser.construct_tracts
+    may only *format* such a component (f-string / str()), never add to it,
+    call a method on it or index it."""
+    st = ctx.repo.func('ChunkParser._stage_new_tract')
+    dicts = [n for n in walk_local(st.node) if isinstance(n, ast.Dict)]
+    if len(dicts) != 1:
+        ctx.undecided('EXC', 'staged tract components', 'dict literal in _stage_new_tract not recognised')
+        return
+    key_of_param = {norm(v): k.value for k, v in zip(dicts[0].keys, dicts[0].values)
+                    if isinstance(k, ast.Constant) and isinstance(v, ast.Name)}
+    pnames = [p for p in st.params() if p != 'self']
+    cp = ctx.repo.cls('plss_parse:ChunkParser')
+    none_attrs = set()
+    for m in cp.methods.values():
+        for n in ast.walk(m.node):
+            if isinstance(n, ast.Assign) and isinstance(n.value, ast.Constant) and n.value.value is None:
+                for t in n.targets:
+                    if isinstance(t, ast.Attribute) and norm(t.value) == 'self':
+                        none_attrs.add(t.attr)
+    nullable = {}
+    for fi in ctx.repo.funcs.values():
+        if not fi.qualname.startswith('ChunkParser.'):
+            continue
+        for c in walk_local(fi.node):
+            if isinstance(c, ast.Call) and dotted(c.func) == 'self._stage_new_tract':
+                for pn, arg in list(zip(pnames, c.args)) + [(k.arg, k.value) for k in c.keywords if k.arg]:
+                    if isinstance(arg, ast.Attribute) and norm(arg.value) == 'self' and arg.attr in none_attrs \
+                            and pn in key_of_param:
+                        nullable[key_of_param[pn]] = f"self.{arg.attr}"
+    ct = ctx.repo.func('PLSSParser.construct_tracts')
+    # expressions that denote a nullable component: tract_data['k'] and local aliases of it
+    loopvars = {norm(n.target) for n in walk_local(ct.node) if isinstance(n, ast.For)
+                and 'tract_components' in norm(n.iter)}
+    def is_comp(e, key):
+        return isinstance(e, ast.Subscript) and norm(e.value) in loopvars and isinstance(e.slice, ast.Constant) \
+            and e.slice.value == key
+    n_uses = 0
+    for key, src in sorted(nullable.items()):
+        aliases = {norm(a.targets[0]) for a in walk_local(ct.node) if isinstance(a, ast.Assign)
+                   and len(a.targets) == 1 and isinstance(a.targets[0], ast.Name) and is_comp(a.value, key)}
+        for n in walk_local(ct.node):
+            if not (is_comp(n, key) or (isinstance(n, ast.Name) and isinstance(n.ctx, ast.Load) and n.id in aliases)):
+                continue
+            par = n._parent
+            if isinstance(par, ast.Assign) and par.value is n:
+                continue            # the alias definition itself
+            n_uses += 1
+            construct = f"construct_tracts: staged '{key}' (may be None, from {src}) is only formatted"
+            where = common.loc(ct, n)
+            if isinstance(par, ast.FormattedValue) or (isinstance(par, ast.Call) and dotted(par.func) in ('str', 'repr', 'format')):
+                ctx.ok('EXC', construct, f"`{norm(par)[:50]}`")
+            elif isinstance(par, ast.BinOp) or (isinstance(par, ast.Attribute) and isinstance(par._parent, ast.Call)
+                                                and par._parent.func is par) \
+                    or (isinstance(par, ast.Subscript) and par.value is n):
+                # a None test that dominates the use makes it safe
+                facts = [(t, pol) for _e, t, pol in facts_at(n)]
+                me = norm(n)
+                if (f"{me} is None", False) in facts or (me, True) in facts:
+                    ctx.ok('EXC', construct, 'guarded by a None test')
+                    continue
+                ctx.violation('EXC', construct,
+                              f"`{norm(enclosing_stmt(n))[:70]}` applies an operator / method to the staged '{key}', which is "
+                              f"None when no Twp/Rge (section) had been found before the block (e.g. a dictated "
+                              f"Twp/Rge-first layout on text that starts with a section): TypeError",
+                              key=f"EXC|construct_tracts|optional|{key}", where=where)
+            elif isinstance(par, ast.For) and par.iter is n:
+                ctx.undecided('EXC', construct, f"iterated (`for ... in {norm(n)}`); whether None can reach it is not decided")
+            else:
+                ctx.undecided('EXC', construct, f"used in `{norm(par)[:50]}`")
+    if not nullable:
+        ctx.undecided('EXC', 'staged tract components', 'no None-initialised attribute is staged')
 
 
 def _parser_funcs(ctx):
